@@ -114,6 +114,13 @@ func c36Parse(log string, root string) (done []c36Call, inflight *c36Call) {
 			if j := strings.LastIndex(rest, " = "); j >= 0 {
 				p.Ret = strings.TrimSpace(rest[j+3:])
 			}
+			if p.Ret == "?" {
+				if strings.Contains(p.Args, root) {
+					pp := p
+					inflight = &pp
+				}
+				continue
+			}
 			p.Finished = true
 			if strings.Contains(p.Args, root) {
 				done = append(done, p)
@@ -264,7 +271,7 @@ func streamC36(h *H) {
 		fmt.Fprintln(os.Stderr, "C36: strace not available")
 		os.Exit(7)
 	}
-	sizes := []int{0, 1000, 70000}
+	sizes := []int{0, 1000, 70000, 300001, 17}
 	if h.Thorough() {
 		sizes = []int{0, 1, 2, 100, 4095, 4096, 4097, 65536, 70000, 1 << 20, 1<<20 + 17, 3 << 20}
 		for len(sizes) < 40 {
@@ -329,12 +336,17 @@ func streamC36(h *H) {
 		sort.Strings(names)
 		// 2. kill runs: for every syscall name, the last perName[n]+1 occurrences (the calls of the
 		// save itself are the last ones of the process; one extra index earlier for the boundary)
-		for _, n := range names {
-			lo := total[n] - perName[n]
+		for ni, n := range names {
+			// the calls of the save are the last perName[n] ones of the process; for the first
+			// name also one index earlier (killed before the save) and one later (never fires)
+			lo, hi := total[n]-perName[n]+1, total[n]
+			if ni == 0 {
+				lo, hi = lo-1, hi+1
+			}
 			if lo < 1 {
 				lo = 1
 			}
-			for k := lo; k <= total[n]+1; k++ {
+			for k := lo; k <= hi; k++ {
 				caseNo++
 				if h.NSh > 1 && caseNo%h.NSh != h.Shard {
 					continue
@@ -342,6 +354,14 @@ func streamC36(h *H) {
 				root, repo := setup()
 				log, cerr, to := c36Run(repo, typ, size, seed, fmt.Sprintf("%s:signal=KILL:when=%d", n, k))
 				done, inflight := c36Parse(log, repo)
+				killed := !strings.Contains(cerr, "save-ok") && !strings.Contains(cerr, "save-error")
+				if killed && inflight == nil && len(done) > 0 && done[len(done)-1].Name == n {
+					// strace reports the call at which the KILL was injected as completed although
+					// the kernel may not have executed it: its effect is unknown
+					last := done[len(done)-1]
+					inflight = &last
+					done = done[:len(done)-1]
+				}
 				h.Case("kill")
 				h.Rec("setup", typ, Itoa(size), B(premk), prevKind, n, Itoa(k))
 				h.Rec("data", Itoa(size), hex.EncodeToString(sum[:8]))
